@@ -388,6 +388,10 @@ impl Connack {
         }
 
         let flags = data[0];
+        // Bits 7-1 of the Connect Acknowledge Flags are reserved and must be 0 [MQTT-3.2.2-1]
+        if flags & 0xFE != 0 {
+            return Err(MqttError::MalformedPacket);
+        }
         let session_present = (flags & 0x01) != 0;
 
         let code = data[1];
